@@ -103,6 +103,7 @@ class MxEndpoint {
     int dtls_timer();                     // resend timer fired: returns number of bytes now pending
     int app_send(const unsigned char *p, size_t n, bool use_writebuf = false);
     int app_close();
+    int hello_request();             // server: ask the client to renegotiate (HelloRequest)
     // other application write routes (C15): matrixSslEncodeToUserBuf (ciphertext into a caller buffer), and a write split in two halves
     // around other events - matrixSslGetWritebuf now, matrixSslEncodeWritebuf later
     int app_send_userbuf(const unsigned char *p, size_t n, Bytes *wire);
